@@ -237,11 +237,14 @@ class SubQueryLineageHolder(ColumnLineageMixin):
             self.graph.add_edge(tgt_table, new_column, type=EdgeType.HAS_COLUMN)
             self.graph.add_edge(src_col.parent, src_col, type=EdgeType.HAS_COLUMN)
             self.graph.add_edge(src_col, new_column, type=EdgeType.LINEAGE)
-        # remove wildcard
-        if self.graph.has_node(tgt_wildcard):
-            self.graph.remove_node(tgt_wildcard)
+        # remove wildcard, the target one only when no other source wildcard feeds it, e.g. the t1.* -> tgt.* of
+        # SELECT * FROM t1 JOIN (SELECT c FROM t2) q has to survive the expansion of q.*
         if self.graph.has_node(src_wildcard):
             self.graph.remove_node(src_wildcard)
+        if self.graph.has_node(tgt_wildcard) and not self.get_source_columns(
+            tgt_wildcard
+        ):
+            self.graph.remove_node(tgt_wildcard)
 
 
 class StatementLineageHolder(SubQueryLineageHolder, ColumnLineageMixin):
